@@ -56,6 +56,16 @@ func show(o [][]byte) string {
 
 // Check runs all ordered pairs. prefix is the obligation key prefix, name the function's name for witnesses.
 func Check(c *vf.Ctx, prefix, name string, inputs [][]byte, f F) {
+	check(c, prefix, name, inputs, f, true)
+}
+
+// CheckAppendStyle is Check for functions that are documented to append to their argument (the spare
+// capacity behind the input is theirs to use).
+func CheckAppendStyle(c *vf.Ctx, prefix, name string, inputs [][]byte, f F) {
+	check(c, prefix, name, inputs, f, false)
+}
+
+func check(c *vf.Ctx, prefix, name string, inputs [][]byte, f F, spare bool) {
 	call := func(in []byte) (out [][]byte, pan bool, msg string) {
 		pan, msg, _ = vf.Try(func() { out = f(in) })
 		return
@@ -71,6 +81,29 @@ func Check(c *vf.Ctx, prefix, name string, inputs [][]byte, f F) {
 			return
 		}
 		base[i] = snap(o)
+	}
+	// (5) the input is the caller's: handed over as a sub-slice of a larger buffer, neither the input
+	// bytes nor the spare capacity behind them may be written, and the result must be the reference one
+	for i, x := range inputs {
+		if !spare {
+			break
+		}
+		big := make([]byte, len(x)+160)
+		for k := range big {
+			big[k] = 0xC3
+		}
+		copy(big, x)
+		o, p, m := call(big[:len(x)])
+		okIn := string(big[:len(x)]) == string(x)
+		okSpare := true
+		for _, b := range big[len(x):] {
+			if b != 0xC3 {
+				okSpare = false
+			}
+		}
+		c.Check(prefix+"/input-and-its-spare-capacity-untouched", !p && okIn && okSpare && equal(o, base[i]), func() string {
+			return fmt.Sprintf("%s(buf[:%d]) with %d bytes of spare capacity behind the input: input unchanged=%v, spare capacity unchanged=%v, result %s, first-call result %s (panic=%v %s)", name, len(x), 160, okIn, okSpare, show(o), show(base[i]), p, m)
+		})
 	}
 	for xi, x := range inputs {
 		for yi, y := range inputs {
